@@ -16,6 +16,7 @@ package peersharing
 
 import (
 	"fmt"
+	"sync"
 
 	"github.com/blinklabs-io/gouroboros/protocol"
 )
@@ -26,6 +27,7 @@ type Client struct {
 	config          *Config
 	callbackContext CallbackContext
 	sharePeersChan  chan []PeerAddress
+	busyMutex       sync.Mutex
 }
 
 // NewClient returns a new PeerSharing client object
@@ -77,6 +79,10 @@ func (c *Client) GetPeers(amount uint8) ([]PeerAddress, error) {
 			"role", "client",
 			"connection_id", c.callbackContext.ConnectionId.String(),
 		)
+	// One request at a time: replies carry nothing that ties them to a request
+	// and all callers wait on the same result channel
+	c.busyMutex.Lock()
+	defer c.busyMutex.Unlock()
 	msg := NewMsgShareRequest(amount)
 	if err := c.SendMessage(msg); err != nil {
 		return nil, err
